@@ -190,6 +190,16 @@ def run_case(case, ctx):
         for w in fm.worlds_of(hard_mask):
             fam.add(frozenset(k for k in soft if (masks[k]["f"] >> w) & 1))
         expected = {s for s in fam if not any(t < s for t in fam)}
+        # the same enumeration under further engines (all usable ones in the thorough tier)
+        others = list(eng) if ctx.tier == "thorough" else [eng[(case.get("engine", 0) + 7 * i) % len(eng)] for i in (1, 2)]
+        engine_results = {}
+        for e2 in others:
+            es2 = dict(es, pmaxsat_solver="rc2-" + e2)
+            ctx.ev(1)
+            try:
+                engine_results[e2] = {frozenset(x) for x in create_optimizer(es2).minimal_correction_subsets(wcnf.copy(), ignore=list(ignore))}
+            except BaseException as e:  # noqa: BLE001
+                out.append(obs(f"mcs|{bridge.exc_symptom(e)}", {"message": str(e)[:200], "scenario": sc, "engine": e2}))
         ctx.ev(1)
         try:
             got = create_optimizer(es).minimal_correction_subsets(wcnf, ignore=ignore)
@@ -197,6 +207,12 @@ def run_case(case, ctx):
             out.append(obs(f"mcs|{bridge.exc_symptom(e)}", {"message": str(e)[:200], "scenario": sc}))
             continue
         gots = [frozenset(x) for x in got]
+        for e2, r2 in engine_results.items():
+            if r2 != expected:
+                out.append(obs("mcs|engine-specific", {"scenario": sc, "engine": "rc2-" + e2,
+                                                       "expected": sorted(sorted(s) for s in expected),
+                                                       "got": sorted(sorted(s) for s in r2),
+                                                       "base": [f"{k}:{fm.cond_text(B, A)}" for k, B, A in base]}))
         if len(expected) >= 2 or any(len(es["nf_cnf_dict"][k]) >= 2 for k in soft):
             ctx.nt(repr(("p2", hard_mask, tuple(sorted((k, masks[k]["f"]) for k in soft)))))
         ctx.stratum(f"p2:minimal-sets={min(len(expected), 3)}")
